@@ -24,7 +24,18 @@ struct Gen<'a> {
 }
 impl Gen<'_> {
     fn page(&mut self, k: u64) -> u64 {
-        let r = self.rng.pick(&self.regions.clone());
+        let mut r = self.rng.pick(&self.regions.clone());
+        if let Some(ri) = self.rec {
+            // the recursive index as a level-3 / level-2 / level-1 index of an ordinary page
+            if self.rng.chance(1, 5) {
+                match (self.rng.below(3), k) {
+                    (0, _) => r = (r & !(0x1ffu64 << 30)) | (ri << 30),
+                    (1, 0) | (1, 1) => return r + (ri << 21),
+                    (_, 0) => return r + (self.rng.below(4) << 21) + (ri << 12),
+                    _ => {}
+                }
+            }
+        }
         let off = match k {
             0 => (self.rng.below(4) << 21) + (self.rng.pick(&[0u64, 1, 2, 255, 510, 511]) << 12),
             1 => self.rng.pick(&[0u64, 1, 2, 3, 511]) << 21,
@@ -252,6 +263,8 @@ pub fn judge(c: &[u64], a: &[i128]) -> (Vec<(&'static str, &'static str)>, Vec<&
     let mut expected_freed: Vec<u64> = vec![];
     let mut probes_follow_cleanup = false;
     let mut failed_regions: HashSet<u64> = HashSet::new();
+    // (k, page) -> parent W/U rights requested by the map call that created the mapping (dropped when a parent-flag call succeeds)
+    let mut granted: BTreeMap<(u64, u64), u64> = BTreeMap::new();
     const SPAN: [u64; 4] = [0, 1 << 21, 1 << 30, 1 << 39];
     macro_rules! fail { ($p:expr, $c:expr) => { if !fails.iter().any(|f| f.1 == $c) { fails.push(($p, $c)); } }; }
     for (i, op) in h.ops.iter().enumerate() {
@@ -269,6 +282,9 @@ pub fn judge(c: &[u64], a: &[i128]) -> (Vec<(&'static str, &'static str)>, Vec<&
             let (k, page) = (op[1], op[2]);
             let start = (calls - d_calls) as usize;
             let mut used = 0usize;
+            let missing = (k + 1..=3).filter(|level| !tables.contains_key(&(*level, page & !(SPAN[*level as usize] - 1) & 0x0000_ffff_ffff_ffff))).count() as i128;
+            if d_calls > missing { fail!("C09", "a frame was requested although the page table it would become already exists"); }
+            if ok && d_calls != missing { fail!("C09", "a successful mapping must request exactly one frame per missing table"); }
             for level in (k + 1..=3).rev() {
                 let base = page & !(SPAN[level as usize] - 1) & 0x0000_ffff_ffff_ffff;
                 if tables.contains_key(&(level, base)) { continue; }
@@ -300,6 +316,8 @@ pub fn judge(c: &[u64], a: &[i128]) -> (Vec<(&'static str, &'static str)>, Vec<&
                     if res.len() != 2 || res[1] != page as i128 { fail!("C11", "a successful map must return the flush token of exactly the page it mapped"); }
                     if overlaps(&m, k, page) { fail!("C02", "map reported success although the page (or a page containing it / inside it) is already mapped"); }
                     m.insert((k, page), (frame, if k > 0 { flags | HUGE } else { flags }));
+                    let pf = if op[0] == 2 { op[5] } else { flags & 7 };
+                    granted.insert((k, page), pf & 6);
                     sizes_mapped.insert(k);
                     let _ = f7b;
                 } else {
@@ -327,6 +345,7 @@ pub fn judge(c: &[u64], a: &[i128]) -> (Vec<(&'static str, &'static str)>, Vec<&
                             if res.len() != 3 || res[1] != f as i128 { fail!("C01", "unmap must return the frame given to the earlier map"); }
                             if res.get(2) != Some(&(page as i128)) { fail!("C11", "a successful unmap must return the flush token of exactly the page it unmapped"); }
                             m.remove(&(k, page));
+                            granted.remove(&(k, page));
                         } else if k > 0 && fl & 0x1000 != 0 && res[0] == -14 { known.push("F7b"); }
                         else { fail!("C02", "unmap of a mapped page of that size failed"); }
                     }
@@ -365,6 +384,7 @@ pub fn judge(c: &[u64], a: &[i128]) -> (Vec<(&'static str, &'static str)>, Vec<&
             6 => {
                 let (k, level, page) = (op[1], op[2], op[3]);
                 if ok {
+                    granted.clear();
                     if res.len() != 1 { fail!("C11", "a parent-flag call must return a flush-all token"); }
                     // a parent entry exists only above the leaf level of the page's own mapping
                     if let Some((mk, _, _, _)) = dictated(&m, page) {
@@ -396,6 +416,10 @@ pub fn judge(c: &[u64], a: &[i128]) -> (Vec<(&'static str, &'static str)>, Vec<&
                             else {
                                 if res[0] != (f + (va - page)) as i128 || res[1] != SZ[k as usize] as i128 { fail!("C01", "the hardware walk reaches a different physical address or page size than the history dictates"); }
                                 let leaf = res[2] as u64;
+                                if let Some(g) = granted.get(&(k, page)) {
+                                    if g & 2 != 0 && leaf & 2 != 0 && res[3] != 1 { fail!("C01", "the effective writable right along the walk must include the parent flags requested by the map call"); }
+                                    if g & 4 != 0 && leaf & 4 != 0 && res[4] != 1 { fail!("C01", "the effective user right along the walk must include the parent flags requested by the map call"); }
+                                }
                                 let mask = 0xfff0_0000_0000_0fffu64;
                                 if leaf & mask != fl & mask { fail!("C01", "the leaf entry's flags differ from the flags the history dictates"); }
                             }
@@ -427,6 +451,7 @@ pub fn judge(c: &[u64], a: &[i128]) -> (Vec<(&'static str, &'static str)>, Vec<&
                 last_cleanup_freed_none = d_freed == 0;
                 probes_follow_cleanup = true;
                 let (rs, re) = if op[0] == 10 { (0u64, 0xffff_ffff_ffff_f000u64) } else { (op[1], op[2]) };
+                let expected_before = expected_freed.len();
                 if rs <= re {
                     let lo48 = |x: u64| x & 0x0000_ffff_ffff_ffff;
                     let (rs, re) = (lo48(rs), lo48(re) + 4095);
@@ -445,6 +470,9 @@ pub fn judge(c: &[u64], a: &[i128]) -> (Vec<(&'static str, &'static str)>, Vec<&
                         }
                     }
                 }
+                let want_now = (expected_freed.len() - expected_before) as i128;
+                if d_freed > want_now { fail!("C10", "this clean-up call deallocated more tables than the empty ones overlapping its range (independent table bookkeeping)"); }
+                if d_freed < want_now { fail!("C10", "this clean-up call left behind an empty table that overlaps its range (independent table bookkeeping)"); }
             }
             13 => {
                 // a table that holds nothing (by the oracle's own bookkeeping) must read all zero
